@@ -15,3 +15,11 @@ mod types;
 pub use decoder::{DecoderOption, H263State};
 pub use error::{Error, Result};
 pub use types::{PictureOption, PictureTypeCode};
+
+/// Verification hooks (feature `verif`): nameable re-exports of internal items.
+#[cfg(feature = "verif")]
+pub mod verif {
+    pub use crate::decoder::verif_exports::*;
+    pub use crate::parser::{Entry, Table};
+    pub use crate::types::*;
+}
